@@ -227,13 +227,25 @@ CheckVm(m, e) ==
   ELSE IF Abs(e.g - AmpDb[e.x + 1]) > 60 THEN "distance_parameter_follows_listener"
   ELSE ""
 
+\* ------------------------------------------------------------------ a rigid motion under way
+\* kind = "glide": listener and emitter are moved by the same translation with the same tween (started at once or at a
+\* tick of a clock); gl: one callback meanwhile or afterwards, dl / dr = largest deviation (gain * 10^6) of any frame's
+\* left / right level from the level before the motion; bl = that level (it must be audible for the test to mean anything)
+CheckGlide(m, e) ==
+  IF e.a # "gl" THEN ""
+  ELSE IF e.p THEN "no_panic"
+  ELSE IF e.bl <= 0 THEN "harness_glide_inaudible"
+  ELSE IF e.dl > m.cfg.tol \/ e.dr > m.cfg.tol THEN "invariant_under_rigid_motion"
+  ELSE ""
+
 \* ------------------------------------------------------------------ both
 PInit(c) == IF c.kind = "life" THEN PInitLife(c)
             ELSE IF c.kind = "geo" THEN PInitGeo(c)
             ELSE [kind |-> "none", cfg |-> c]
 Check(m, e) == IF m.kind = "life" THEN CheckLife(m, e)
                ELSE IF m.kind = "geo" THEN CheckGeo(m, e)
-               ELSE IF m.kind = "none" /\ m.cfg.kind = "vmap" THEN CheckVm(m, e) ELSE ""
+               ELSE IF m.kind = "none" /\ m.cfg.kind = "vmap" THEN CheckVm(m, e)
+               ELSE IF m.kind = "none" /\ m.cfg.kind = "glide" THEN CheckGlide(m, e) ELSE ""
 Upd(m, e) == IF m.kind = "life" THEN UpdLife(m, e)
              ELSE IF m.kind = "geo" THEN UpdGeo(m, e) ELSE m
 =============================================================================
